@@ -39,6 +39,59 @@ def run(rec, cfg):
         for t in odd_trees(rng):
             rec.arm("start:constructed")
             D.apply_everywhere(rec, t, rules, rng, cap=8, check_original=True)
+    # one piece used several times: parse() hands out its cached tree, so callers clone a parsed
+    # piece before re-using it, and clone() keeps the ids -- "add 2x to both sides" gives an
+    # equation whose two 2x subtrees carry the same ids (as do the two copies distribute makes)
+    from ..workloads import exprs as WE
+
+    bm = [(l, r) for l, r in rules if l in ("BM", "CS", "AG", "DF")]
+    for i in range(cfg.scale(25, 2500)):
+        f = WE.Filler(rng)
+        piece = f.fill(rng.choice(["{c}{v}{e}", "{k}{v}", "{k}", "{v}", "({v} + {k})", "{k}{v} * {w}"]))
+        text = rng.choice(["{a} + {p} = {b} + {p}", "{p} + {a} = {p} + {b}", "{a} + {p} + {p} = {b}", "{a} = {p} + {b} + {p}", "{p} + {a} = {b} + {p} + {t}"])
+        text = text.format(a=f.t(), b=f.k(), p=piece, t=f.t())
+        try:
+            want = S.vshadow(D.parse(piece))
+        except Exception:
+            continue
+
+        def build():
+            root = RC.parse_start(text)
+            if root is None or S.kind(root) != "Equal":
+                return None
+            twins = [m for m in S.nodes_preorder(root) if S.vshadow(m) == want]
+            if len(twins) < 2:
+                return None
+            for other in twins[1:]:
+                for a_, b_ in zip(S.nodes_preorder(twins[0]), S.nodes_preorder(other)):
+                    b_.id = a_.id
+            return root
+
+        root = build()
+        if root is None:
+            continue
+        rec.arm("start:one-piece-cloned-into-several-places")
+        for label, idx, new_root in D.apply_everywhere(rec, root, bm, rng, cap=6, check_original=True):
+            if new_root is not None and rng.random() < 0.3:
+                D.apply_everywhere(rec, new_root, bm[:1], rng, cap=3, check_original=True)
+        # the same applications made directly on the listed node (the rules are in-place
+        # operations; balanced move clones the equation itself), each on a tree built anew
+        for label, rule in bm:
+            try:
+                count = len(rule.find_nodes(root))
+            except Exception:
+                continue
+            for j in range(min(count, 6)):
+                t = build()
+                if t is None:
+                    break
+                try:
+                    nodes = rule.find_nodes(t)
+                    if j < len(nodes):
+                        rule.apply_to(nodes[j])
+                        rec.arm("apply:in-place-on-a-tree-with-cloned-pieces")
+                except (Exception, RecursionError):
+                    pass
     k = 0
     for src, text, hints in RC.start_texts(cfg, rng, n, equations=0.25):
         if cfg.out_of_time():
